@@ -32,6 +32,17 @@ var verifRoot = func() string {
 	return "/verif"
 }()
 
+// altRoot is set for development runs against a scratch copy of the repository (VERIF_ALT):
+// evidence and replays of such runs must not overwrite the real ones.
+var altRoot string
+
+func outRoot() string {
+	if altRoot != "" {
+		return altRoot
+	}
+	return verifRoot
+}
+
 type Check struct {
 	ID    string
 	Level string // exploration | fault_enumeration
@@ -208,13 +219,17 @@ func main() {
 		os.Exit(3)
 	}
 	c.Work = filepath.Join(verifRoot, ".work", id)
+	if alt := os.Getenv("VERIF_ALT"); alt != "" { // development runs against a scratch copy of the repository
+		altRoot = filepath.Join(verifRoot, ".work", "alt", alt)
+		c.Work = filepath.Join(altRoot, id)
+	}
 	os.RemoveAll(c.Work)
 	os.MkdirAll(c.Work, 0755)
 	c.Ev = ev.New(id, c.Tier, c.Seed, ck.Level)
 	c.Ev.Rule = ck.Rule
 
 	if c.Replay == nil { // stale witnesses of earlier runs with this seed would be confusing
-		old, _ := filepath.Glob(filepath.Join(verifRoot, "replays", fmt.Sprintf("%s-seed%d-*.json", id, c.Seed)))
+		old, _ := filepath.Glob(filepath.Join(outRoot(), "replays", fmt.Sprintf("%s-seed%d-*.json", id, c.Seed)))
 		for _, f := range old {
 			os.Remove(f)
 		}
@@ -241,7 +256,7 @@ func main() {
 	c.Ev.Set("known_findings_observed", kfOut)
 	c.Ev.Set("inconclusive_reasons", firstN(c.inconcl, 10))
 	if c.Replay == nil {
-		if err := c.Ev.Write(filepath.Join(verifRoot, "evidence")); err != nil {
+		if err := c.Ev.Write(filepath.Join(outRoot(), "evidence")); err != nil {
 			fmt.Fprintln(os.Stderr, "evidence:", err)
 			os.Exit(3)
 		}
@@ -249,12 +264,12 @@ func main() {
 	fmt.Printf("check %s tier=%s seed=%d evaluations=%d distinct=%d violations=%d inconclusive=%d wall=%.1fs\n",
 		id, c.Tier, c.Seed, c.Ev.Evaluations(), c.Ev.DistinctCount(), len(c.violations), len(c.inconcl), time.Since(start).Seconds())
 	if len(c.violations) > 0 {
-		os.MkdirAll(filepath.Join(verifRoot, "replays"), 0755)
+		os.MkdirAll(filepath.Join(outRoot(), "replays"), 0755)
 		for i, v := range c.violations {
 			cs, _ := json.Marshal(v.Replay)
 			rf := ReplayFile{Property: id, Seed: c.Seed, Tier: c.Tier, Sig: v.Sig, What: v.What, Case: cs}
 			b, _ := json.MarshalIndent(rf, "", " ")
-			p := filepath.Join(verifRoot, "replays", fmt.Sprintf("%s-seed%d-%d.json", id, c.Seed, i))
+			p := filepath.Join(outRoot(), "replays", fmt.Sprintf("%s-seed%d-%d.json", id, c.Seed, i))
 			os.WriteFile(p, b, 0644)
 			fmt.Printf("VIOLATION property=%s replay=%s\n", id, p)
 			fmt.Printf("  [%s] %s\n", v.Sig, v.What)
